@@ -45,6 +45,36 @@ pub fn run(case: &Value, f: &mut Fails) {
 			f.eq(ROUTE, "json.owned.verdict", x, ok);
 		}
 	}
+	// ---- C08: DataUrlBuf implements Borrow<DataUrl>: same hash, same answers, lookups find the key
+	if let (Some(Some(bv)), Some(Ok(ov))) = (&b, &o) {
+		use std::collections::{BTreeSet, HashSet};
+		use std::hash::{Hash, Hasher};
+		fn h<T: Hash + ?Sized>(v: &T) -> u64 {
+			let mut s = std::collections::hash_map::DefaultHasher::new();
+			v.hash(&mut s);
+			s.finish()
+		}
+		const C08: &[&str] = &["C08"];
+		let bv: &DataUrl = bv;
+		f.eq(C08, "DataUrlBuf.hash.vs_DataUrl_view", h(ov), h(bv));
+		let mut hs = HashSet::new();
+		hs.insert(ov.clone());
+		f.ok(C08, "HashSet<DataUrlBuf>.contains(&DataUrl)", hs.contains(bv), || json!(s));
+		let mut bs = BTreeSet::new();
+		bs.insert(ov.clone());
+		f.ok(C08, "BTreeSet<DataUrlBuf>.contains(&DataUrl)", bs.contains(bv), || json!(s));
+		// another spelling of the same URI (a "." segment in the media type, an escaped letter in the
+		// data): owned values must compare as their borrowed views do
+		for other in [s.replacen('/', "/./", 1), format!("{s}%41"), format!("{s}A"), s.replacen("data:", "data:./", 1)] {
+			if let (Ok(b2), Ok(o2)) = (DataUrl::new(other.as_str()), DataUrlBuf::new(other.as_bytes().to_vec())) {
+				f.eq(C08, "DataUrlBuf.eq.vs_DataUrl_views", *ov == o2, *bv == *b2);
+				f.eq(C08, "DataUrlBuf.cmp.vs_DataUrl_views", ov.cmp(&o2) as i8, bv.cmp(b2) as i8);
+				if *bv == *b2 {
+					f.eq(C08, "DataUrlBuf.hash.equal_values", h(ov), h(&o2));
+				}
+			}
+		}
+	}
 	if let Some(x) = &o {
 		f.eq(C18, "owned.verdict", x.is_ok(), ok);
 		if let Err(e) = x {
